@@ -12,10 +12,10 @@ def run(tier):
         "C10", tier,
         "C10: all record sequences of length <= 3 (thorough: 3 over 9 classes, 4 over 5 classes) over record classes "
         "{complete, partially missing, last column missing, multiallelic, (monomorphic, all missing)} plus fault rows "
-        "(haploid/triploid call in a selected sample, corrupt line) at every position x 3 lists x no projection + every "
+        "(haploid/triploid call in a selected sample, corrupt line / BCF stream ending inside a record) at every position; every scenario also runs through the BCF path x 3 lists x no projection + every "
         "projection target x strict on/off. Conservation (mass + skipped = sites) is a TLC invariant of every state.",
         ["MCCreate_hist_quick.cfg"], ["MCCreate_hist_t1.cfg", "MCCreate_hist_t2.cfg"],
-        [SAB_SCRATCH, SAB_RESET])
+        [SAB_SCRATCH, SAB_RESET], env={"CREATE_ALSO": "bcf"})
 
     # Create.tla refines the counter machine ...
     r = vcore.tlc_must_pass("c10_refine", "MCCreate", "MCCreate_refine.cfg", workers=8, timeout=3000)
